@@ -20,5 +20,5 @@ func c14GenRouter(tier string, emit func(c14Case)) {
 }
 
 func c14RunRouter(c c14Case, st *fw.Stats) []fw.Viol {
-	return cacheGraphRun(c.Router.Cfg, cgReqs(c.Router.Ext), "C14", c.Router.Full, st)
+	return cacheGraphRun(c.Router.Cfg, cgReqsFor(c.Router.Cfg.Table, c.Router.Ext), "C14", c.Router.Full, st)
 }
